@@ -31,7 +31,7 @@ BEH = {"ok": "BWorks", "fail": "(BFail true LNone)", "mkstemp": "(BFail false LN
 def citem(i):
     row = "None" if i["dst_row"] is None else f"(Some ({HAS[i['dst_row'][0]]}, {WANTS[i['dst_row'][1]]}))"
     return (f"{{| src_has := {HAS[i['src_has']]}; src_disk := {BYTES[i['src_disk']]}; dst_row := {row}; dst_disk := {BYTES[i['dst_disk']]}; "
-            f"ph := {cbool(i["ph"])}; tmp := {cbool(i["tmp"])}; stg := false; req := {REQ[i['req']]} |}}")
+            f"ph := {cbool(i["ph"])}; tmp := {cbool(i["tmp"])}; stg := false; req := {REQ[i['req']]}; due := false |}}")
 
 
 def cenv(e):
